@@ -9,14 +9,18 @@
 (* is only right as long as "CAS above vlast" captures every document that *)
 (* changed since the last update, so the model contains everything that    *)
 (* moves CAS values and marks:                                             *)
-(*   Write       a regular write: CAS from the process clock, mark := CAS  *)
+(*   Write       a regular write (a document the map function emits a row  *)
+(*               for, one it skips, or a deletion): CAS from the process   *)
+(*               clock, mark := CAS                                        *)
 (*   WriteOther  a regular write to another collection of the bucket       *)
 (*   Meta        SetWithMeta / DeleteWithMeta: caller-chosen CAS;          *)
 (*               at or below the mark -> the collection's views are        *)
-(*               invalidated (vlast := 0), above it -> mark := CAS         *)
-(*   Purge       a tombstone without xattrs disappears (rows cascade)      *)
+(*               invalidated (vlast := 0), above it -> mark := CAS and the *)
+(*               clock learns of it                                        *)
+(*   Purge       the tombstones disappear (their rows cascade)             *)
 (*   Replace     the design document is replaced (rows dropped, vlast 0)   *)
-(*   Update      what a non-stale (or update-after) query does first       *)
+(*   Query       stale=false: Update, then the rows; stale=ok: the rows as *)
+(*               they are                                                  *)
 (*                                                                         *)
 (* Switches (TRUE = the design):                                           *)
 (*   InvalidateOnForeign  a caller-chosen CAS at or below the mark         *)
@@ -26,44 +30,55 @@
 (*   ClockSeesForeign     a caller-chosen CAS above the mark advances the  *)
 (*                        process clock, so that later regular writes are  *)
 (*                        stamped above it                                 *)
+(*                                                                         *)
+(* MC_View_*.cfg: model checking (design + three witnesses).               *)
+(* Gen_View.cfg : behaviour generation (tlc -simulate); the Go harness     *)
+(* replays the printed action lists with the physical clock standing still *)
+(* (so that real CAS = base + model CAS) and ViewTrace validates the rows  *)
+(* every query returned - non-stale ones and stale=ok ones, which show the *)
+(* index as it is.                                                         *)
 (***************************************************************************)
-EXTENDS Integers, FiniteSets, TLC
+EXTENDS Integers, Sequences, FiniteSets, TLC, Json
 
 CONSTANTS Keys, MaxCas, MaxSteps, InvalidateOnForeign, OwnMark, ClockSeesForeign
 
-VARIABLES docs,    \* [Keys -> [cas, ver, vis]]: cas 0 = no row; vis = the map function emits a row for it (body or xattrs)
+VARIABLES docs,    \* [Keys -> [cas, ver, kind]]: cas 0 = no row; kind: "emit" (the map function emits a row), "skip", "tomb"
           clock,   \* the process clock (last CAS it handed out or was told about)
           cmark,   \* collections.lastCas of this collection
           omark,   \* newest CAS written to another collection
           vlast,   \* views.lastCas
-          rows,    \* the index: set of <<key, ver>>
-          nver, steps
-vars == <<docs, clock, cmark, omark, vlast, rows, nver, steps>>
+          rows,    \* the index: set of <<key, ver, dv>>
+          dv,      \* which of two design documents is installed
+          nver, steps, hist
+vars == <<docs, clock, cmark, omark, vlast, rows, dv, nver, steps, hist>>
 
-NoDoc == [cas |-> 0, ver |-> 0, vis |-> FALSE]
+NoDoc == [cas |-> 0, ver |-> 0, kind |-> "none"]
 Max2(a, b) == IF a > b THEN a ELSE b
 Mark == IF OwnMark THEN cmark ELSE Max2(cmark, omark)
-Expected == {<<k, docs[k].ver>> : k \in {x \in Keys : docs[x].cas > 0 /\ docs[x].vis}}
+Emitting(d) == {k \in Keys : d[k].cas > 0 /\ d[k].kind = "emit"}
+Expected == {<<k, docs[k].ver, dv>> : k \in Emitting(docs)}
 
 Init == /\ docs = [k \in Keys |-> NoDoc]
-        /\ clock = 0 /\ cmark = 0 /\ omark = 0 /\ vlast = 0 /\ rows = {} /\ nver = 0 /\ steps = 0
+        /\ clock = 0 /\ cmark = 0 /\ omark = 0 /\ vlast = 0 /\ rows = {} /\ dv = 0 /\ nver = 0 /\ steps = 0 /\ hist = <<>>
 
-Write(k, vis) ==
-    /\ clock < MaxCas
-    /\ clock' = clock + 1
-    /\ docs' = [docs EXCEPT ![k] = [cas |-> clock + 1, ver |-> nver + 1, vis |-> vis]]
-    /\ cmark' = clock + 1                      \* setLastCas: the mark becomes this CAS (not the maximum)
+(* (the CAS is a parameter so that trace validation can replay the values the real clock handed out) *)
+WriteC(k, kd, c) ==
+    /\ kd = "tomb" => docs[k].kind \in {"emit", "skip"}         \* Delete of a live document
+    /\ clock' = c
+    /\ docs' = [docs EXCEPT ![k] = [cas |-> c, ver |-> nver + 1, kind |-> kd]]
+    /\ cmark' = c                             \* setLastCas: the mark becomes this CAS (not the maximum)
     /\ nver' = nver + 1
-    /\ UNCHANGED <<omark, vlast, rows>>
+    /\ UNCHANGED <<omark, vlast, rows, dv>>
+Write(k, kd) == clock < MaxCas /\ WriteC(k, kd, clock + 1)
 
-WriteOther ==
-    /\ clock < MaxCas
-    /\ clock' = clock + 1 /\ omark' = clock + 1
-    /\ UNCHANGED <<docs, cmark, vlast, rows, nver>>
+WriteOtherC(c) ==
+    /\ clock' = c /\ omark' = c
+    /\ UNCHANGED <<docs, cmark, vlast, rows, dv, nver>>
+WriteOther == clock < MaxCas /\ WriteOtherC(clock + 1)
 
-Meta(k, c, vis) ==
+Meta(k, c, kd) ==
     /\ c # docs[k].cas
-    /\ docs' = [docs EXCEPT ![k] = [cas |-> c, ver |-> nver + 1, vis |-> vis]]
+    /\ docs' = [docs EXCEPT ![k] = [cas |-> c, ver |-> nver + 1, kind |-> kd]]
     /\ nver' = nver + 1
     /\ IF c <= cmark
        THEN /\ vlast' = IF InvalidateOnForeign THEN 0 ELSE vlast
@@ -71,36 +86,61 @@ Meta(k, c, vis) ==
        ELSE /\ cmark' = c
             /\ clock' = IF ClockSeesForeign THEN Max2(clock, c) ELSE clock
             /\ vlast' = vlast
-    /\ UNCHANGED <<omark, rows>>
+    /\ UNCHANGED <<omark, rows, dv>>
 
-Purge(k) ==
-    /\ docs[k].cas > 0 /\ ~docs[k].vis
-    /\ docs' = [docs EXCEPT ![k] = NoDoc]
-    /\ rows' = {r \in rows : r[1] # k}
-    /\ UNCHANGED <<clock, cmark, omark, vlast, nver>>
+Purge ==
+    /\ \E k \in Keys : docs[k].kind = "tomb"
+    /\ docs' = [k \in Keys |-> IF docs[k].kind = "tomb" THEN NoDoc ELSE docs[k]]
+    /\ rows' = {r \in rows : docs[r[1]].kind # "tomb"}
+    /\ UNCHANGED <<clock, cmark, omark, vlast, dv, nver>>
 
-Replace == /\ rows' = {} /\ vlast' = 0 /\ UNCHANGED <<docs, clock, cmark, omark, nver>>
+Replace == /\ rows' = {} /\ vlast' = 0 /\ dv' = 1 - dv /\ UNCHANGED <<docs, clock, cmark, omark, nver>>
 
+Updated == IF vlast = Mark THEN rows
+           ELSE {r \in rows : docs[r[1]].cas <= vlast}
+                \cup {<<k, docs[k].ver, dv>> : k \in {x \in Emitting(docs) : docs[x].cas > vlast}}
 Update ==
-    /\ vlast # Mark
-    /\ rows' = {r \in rows : docs[r[1]].cas <= vlast}
-               \cup {<<k, docs[k].ver>> : k \in {x \in Keys : docs[x].cas > vlast /\ docs[x].vis}}
+    /\ rows' = Updated
     /\ vlast' = Mark
-    /\ UNCHANGED <<docs, clock, cmark, omark, nver>>
+    /\ UNCHANGED <<docs, clock, cmark, omark, dv, nver>>
+QueryStaleOk == UNCHANGED <<docs, clock, cmark, omark, vlast, rows, dv, nver>>
 
+Act(a, k, c, kd) == [a |-> a, k |-> k, c |-> c, kd |-> kd]
 Next == /\ steps < MaxSteps /\ steps' = steps + 1
-        /\ \/ \E k \in Keys, vis \in BOOLEAN : Write(k, vis)
-           \/ WriteOther
-           \/ \E k \in Keys, c \in 1..MaxCas, vis \in BOOLEAN : Meta(k, c, vis)
-           \/ \E k \in Keys : Purge(k)
-           \/ Replace
-           \/ Update
+        /\ \/ \E k \in Keys, kd \in {"emit", "skip", "tomb"} : Write(k, kd) /\ hist' = Append(hist, Act("write", k, 0, kd))
+           \/ WriteOther /\ hist' = Append(hist, Act("other", "-", 0, "-"))
+           \/ \E k \in Keys, c \in 1..MaxCas, kd \in {"emit", "tomb"} : Meta(k, c, kd) /\ hist' = Append(hist, Act("meta", k, c, kd))
+           \/ Purge /\ hist' = Append(hist, Act("purge", "-", 0, "-"))
+           \/ Replace /\ hist' = Append(hist, Act("replace", "-", 0, "-"))
+           \/ (vlast # Mark /\ Update /\ hist' = Append(hist, Act("query", "-", 0, "-")))
 Spec == Init /\ [][Next]_vars
-View == <<docs, clock, cmark, omark, vlast, rows, steps>>
+View == <<docs, clock, cmark, omark, vlast, rows, dv, steps>>
 
 (* C12: whenever a non-stale query would find nothing to do, the index is exactly the map of the current documents; *)
 (* i.e. the rows a non-stale query returns never depend on when the index was updated                                *)
 UpToDateIsExact == (vlast = Mark) => rows = Expected
-(* the assumption the incremental update rests on: a document changed since the last update has a CAS above vlast *)
-ChangedAreAbove == (vlast # 0) => \A k \in Keys : (docs[k].cas > 0 /\ <<k, docs[k].ver>> \notin rows /\ docs[k].vis) => docs[k].cas > vlast
+
+(* behaviour generation: random action lists with queries (non-stale and stale=ok) at random places *)
+Pick(S) == RandomElement(S)
+GenNext ==
+    /\ steps < MaxSteps /\ steps' = steps + 1
+    \* (random choices are bound by \E over singleton sets: a LET would draw again at every use)
+    /\ \E r \in {Pick(1..20)}, k \in {Pick(Keys)} :
+       IF r <= 6 THEN
+           \E kd \in {Pick(IF docs[k].kind \in {"emit", "skip"} THEN {"emit", "emit", "skip", "tomb"} ELSE {"emit", "emit", "skip"})} :
+           IF clock < MaxCas THEN Write(k, kd) /\ hist' = Append(hist, Act("write", k, 0, kd))
+           ELSE Update /\ hist' = Append(hist, Act("query", "-", 0, "-"))
+       ELSE IF r <= 8 /\ clock < MaxCas THEN WriteOther /\ hist' = Append(hist, Act("other", "-", 0, "-"))
+       ELSE IF r <= 12 THEN
+           \* a caller-chosen CAS: at or below the mark, between the collection's and the bucket's mark, above the clock
+           LET cs == ({cmark, cmark - 1, 1, omark - 1, clock + 2, clock + 1} \cap 1..MaxCas) \ {docs[k].cas} IN
+           IF cs = {} THEN Update /\ hist' = Append(hist, Act("query", "-", 0, "-"))
+           ELSE \E c \in {Pick(cs)}, kd \in {Pick({"emit", "emit", "tomb"})} :
+                   Meta(k, c, kd) /\ hist' = Append(hist, Act("meta", k, c, kd))
+       ELSE IF r = 13 /\ \E x \in Keys : docs[x].kind = "tomb" THEN Purge /\ hist' = Append(hist, Act("purge", "-", 0, "-"))
+       ELSE IF r = 14 THEN Replace /\ hist' = Append(hist, Act("replace", "-", 0, "-"))
+       ELSE IF r <= 16 THEN QueryStaleOk /\ hist' = Append(hist, Act("staleok", "-", 0, "-"))
+       ELSE Update /\ hist' = Append(hist, Act("query", "-", 0, "-"))
+    /\ (steps' < MaxSteps \/ PrintT("BEHAVIOUR " \o ToJson(hist')))
+GenSpec == Init /\ [][GenNext]_vars
 =============================================================================
